@@ -58,6 +58,26 @@ impl Config {
 
         add_project(root_project_dir.clone(), &mut projects)?;
 
+        // Targets are addressed as `project::target`: two project directories must not share a name
+        let mut dir_by_name: HashMap<&str, &Path> = HashMap::new();
+        for (project_dir, project) in &projects {
+            if let Some(name) = &project.name {
+                if let Some(other_dir) = dir_by_name.insert(name, project_dir) {
+                    let (first, second) = if other_dir < project_dir.as_path() {
+                        (other_dir, project_dir.as_path())
+                    } else {
+                        (project_dir.as_path(), other_dir)
+                    };
+                    return Err(anyhow!(
+                        "Projects {} and {} share the same name {}",
+                        first.display(),
+                        second.display(),
+                        name
+                    ));
+                }
+            }
+        }
+
         Ok(Self {
             root_project_dir,
             projects,
